@@ -568,11 +568,17 @@ def short_cval(repo: Repo, rep, P: str):
     rel = mr.file.rel
     s = norm(fn)
     con = f"{rel}:ModuleReader.process_SEND"
-    if "enumerate(self._cvals)" in s and "if cnum < len(self._controller_keys)" in s:
-        rep.ok(f"{P}.R5", con, "for cnum, raw in …enumerate(self._cvals): if cnum < len(keys): set_raw(keys[cnum], raw)",
-               "only the controllers named by the stored values are touched; extra values are ignored with a warning")
+    from .. import inline, order
+    app = order.cval_application(repo)
+    if app.positional is True and app.bounded is True:
+        rep.ok(f"{P}.R5", con, app.text[:160],
+               "only the controllers named by the stored values are touched; extra values are ignored")
+    elif app.positional is None or app.direction is None:
+        rep.inconclusive(f"{P}.R5", con, app.text[:200], "application of the stored values not recognised", f"{rel}:{app.where}")
     else:
-        rep.violation(f"{P}.R5", con, s[:200], "stored values must be applied by position, bounded by the controller list", f"{rel}:{fn.lineno}")
+        rep.violation(f"{P}.R5", con, app.text[:200], "stored values must be applied by position, bounded by the controller list "
+                      f"(positional={app.positional}, bounded={app.bounded})", f"{rel}:{app.where}")
+    fn = inline.flatten(repo, mr, fn)
     others = [n for n in walk_no_nested(fn) if isinstance(n, ast.Attribute) and n.attr == "controller_values" and isinstance(n.ctx, ast.Store)]
     resets = [n for n in walk_no_nested(fn) if isinstance(n, ast.Call) and isinstance(n.func, ast.Attribute)
               and isinstance(n.func.value, ast.Attribute) and n.func.value.attr == "controller_values"]
